@@ -57,6 +57,18 @@ def oracle_fwd(case, impl):
             ROOT_RULE_HITS[0] += 1
             return None
         return "Match(domain=%r, name=%r) = %s, label-suffix rule says %s" % (unhex(f[1]), unhex(f[2]), impl, int(want))
+    if f[0] == "fwdq":
+        # the name of a wire query whose QUESTION is well formed (whatever follows it)
+        p = unhex(f[2])
+        off, labels = 12, []
+        while off < len(p) and p[off] != 0 and p[off] < 64 and off + 1 + p[off] <= len(p):
+            labels.append(p[off + 1:off + 1 + p[off]])
+            off += 1 + p[off]
+        if off >= len(p) or p[off] != 0 or off + 5 > len(p) or int.from_bytes(p[4:6], "big") != 1:
+            return None
+        f = ["fwd", f[1], (b".".join(labels) + b".").hex() if labels else b".".hex()] + f[3:]
+        r = oracle_fwd(" ".join(f), impl)
+        return None if r is None else "wire query (question %r, section after it possibly malformed): %s" % (b".".join(labels), r)
     if f[0] != "fwd" or not impl.startswith("list="):
         return None
     d = kv("x " + impl)
